@@ -47,6 +47,8 @@ func worldVisitors(w *World) {
 		"auth":            map[string]any{"token": token},
 		"transport":       map[string]any{"tcpMux": tcpMux, "heartbeatTimeout": -1},
 		"userConnTimeout": 3,
+		// terse or detailed error texts: a refusal is an error reply either way
+		"detailedErrorsToClient": w.KnobBool("detailed_errors", 50),
 	}
 	env := w.newLcEnv(scfg, token, PeerOpts{Server: "10.0.0.1:7000", Mux: tcpMux, Token: token})
 	env.start()
